@@ -529,8 +529,8 @@ func BuildPool(e *Eco, r *RNG, n int, extra []string) (*Pool, []string) {
 		}
 	}
 	clust0, nClust := r.Intn(nClusters), 0
-	nSib, nDec, nPseudo := 0, 0, 0
-	capClust, capSib, capDec := minInt(nClusters, 1+n/6), minInt(10, 1+n/20), minInt(10, 1+n/12)
+	nSib, nDec, nPseudo, nFam := 0, 0, 0, 0
+	capClust, capSib, capDec, capFam := minInt(nClusters, 1+n/6), minInt(10, 1+n/20), minInt(10, 1+n/12), minInt(12, 1+n/16)
 	// the maintainers' own test inputs: available to the crossover, a few join the pool
 	hv, _ := harvestedFor(e)
 	for k, i := range r.Perm(len(hv)) {
@@ -539,6 +539,33 @@ func BuildPool(e *Eco, r *RNG, n int, extra []string) (*Pool, []string) {
 		} else if !seen[hv[i]] {
 			seen[hv[i]] = true
 			all = append(all, hv[i])
+		}
+	}
+	// constants that the tree under check has and the pinned tree has not (codelits.go): their
+	// families come first and may take up to a third of the pool
+	if len(newIntsFor(e.Name))+len(newStrsFor(e.Name)) > 0 {
+		var bases []string
+		for _, i := range r.Perm(len(hv)) {
+			if len(bases) < 2 && len(digitRuns(hv[i])) >= 2 {
+				bases = append(bases, hv[i])
+			}
+		}
+		for k := 0; k < 40 && len(bases) < 4; k++ {
+			if s := gen(r); e.Parse(s).OK && len(digitRuns(s)) >= 1 {
+				bases = append(bases, s)
+			}
+		}
+		room := n / 3
+		for _, bs := range bases {
+			add(bs)
+			for _, t := range codeLiteralVariants(r, e.Name, bs, 0) {
+				if len(p.Strs) < room {
+					add(t)
+				} else if !seen[t] {
+					seen[t] = true
+					all = append(all, t)
+				}
+			}
 		}
 	}
 	// extras beyond a third of the pool's size come in a seed-dependent order, so that a small
@@ -580,6 +607,48 @@ func BuildPool(e *Eco, r *RNG, n int, extra []string) (*Pool, []string) {
 				add(t)
 			}
 			nSib++
+		case tries%16 == 1 && nFam < capFam && len(all) > 4:
+			// token-prefix closure of a long candidate, deep arities, edge letters, punctuation
+			// pairs (variants.go): one family per turn
+			src := s
+			switch nFam % 4 {
+			case 0:
+				// the longest of a few candidates
+				for k := 0; k < 6; k++ {
+					if c := all[r.Intn(len(all))]; len(c) > len(src) && len(c) < 80 {
+						src = c
+					}
+				}
+				for _, t := range tokenPrefixes(src) {
+					add(t)
+				}
+			case 1:
+				if runs := digitRuns(src); len(runs) > 0 {
+					base := src[:runs[0][1]]
+					sep := "."
+					if e.Name == "cran" && r.Chance(50) {
+						sep = "-"
+					}
+					fam := deepArity(r, base, sep)
+					for _, k := range r.Perm(len(fam)) {
+						if k < 8 {
+							add(fam[k])
+						}
+					}
+				}
+			case 2:
+				for _, t := range edgeLetterVariants(r, src) {
+					add(t)
+				}
+			default:
+				fam := punctuationPairs(r, src, all)
+				for _, k := range r.Perm(len(fam)) {
+					if k < 8 {
+						add(fam[k])
+					}
+				}
+			}
+			nFam++
 		case tries%16 == 13 && nDec < capDec:
 			for _, t := range decorations(r, s) {
 				add(t)
